@@ -269,6 +269,15 @@ def binary_mode(ctx, fi, data, lay):
                         is_const(src[2][1]) and is_const(src[2][2]) and \
                         _is_buf_value(src[1], data):
                     roles[src[2][1][1]] = (u, src[2][2][1])
+                elif u[1] == 'struct.unpack_from' and len(u[3]) == 3 and \
+                        _is_buf_value(src, data) and is_const(u[3][2]) and \
+                        is_const(fmt):
+                    import struct as _st
+                    try:
+                        w = _st.calcsize(fmt[1])
+                    except _st.error:
+                        w = 0
+                    roles[u[3][2][1]] = (u, u[3][2][1] + w)
             okr = set(roles) == {lay['body_len'], lay['array_len']} and \
                 all(hi - lo == 4 for lo, (u, hi) in roles.items())
             ctx.ob('C04.D1', q, 'length-offsets', okr,
